@@ -6,3 +6,4 @@ open GoRedis
 #print axioms C17_metacharacters_quoted
 #print axioms C17_total
 #print axioms C17_scan_uses_glob
+#print axioms C17_fast_matcher
